@@ -78,6 +78,15 @@ class ShapeV:
     axes: tuple
 
 
+def _axis_of(x: Any) -> str:
+    """Axis token of a scalar used as one extent of a shape."""
+    if isinstance(x, SV) and x.text == '1':
+        return 'ONE'
+    if isinstance(x, SV) and x.kind == 'size':
+        return x.size
+    return f'n{getattr(x, "text", "?")}'
+
+
 @dataclass(frozen=True)
 class DT:
     token: str
@@ -499,9 +508,18 @@ class _CB(flow.DefaultCB):
             return self.ev_subscript(e, s, quiet)
         if isinstance(e, (ast.Tuple, ast.List)):
             items = []
+            splat = False
             for x in e.elts:
                 v, s = self.ev(x, s, quiet)
+                if isinstance(x, ast.Starred) and isinstance(v, ShapeV):
+                    splat = True
                 items.append(v)
+            if splat:
+                # [*t.shape[:-1], 1] is the shape list(t.shape[:-1]) + [1]
+                axes: tuple = ()
+                for v in items:
+                    axes += v.axes if isinstance(v, ShapeV) else (_axis_of(v),)
+                return ShapeV(axes), s
             return ListV(tuple(items)), s
         if isinstance(e, ast.IfExp):
             tv = self.truth(e.test, s)
@@ -647,7 +665,7 @@ class _CB(flow.DefaultCB):
                 return Top('matmul')
             return Top('matmul of non-tensors')
         if isinstance(op, ast.Add) and isinstance(a, ShapeV) and isinstance(b, (ListV, ShapeV)):
-            extra = b.axes if isinstance(b, ShapeV) else tuple(('ONE' if isinstance(x, SV) and x.text == '1' else (x.size if isinstance(x, SV) and x.kind == 'size' else f'n{getattr(x, "text", "?")}')) for x in b.items)
+            extra = b.axes if isinstance(b, ShapeV) else tuple(_axis_of(x) for x in b.items)
             return ShapeV(a.axes + extra)
         if isinstance(op, ast.Add) and isinstance(a, SV) and isinstance(b, SV) and a.kind == 'size' and b.kind in ('num', 'flag') and b.text in ('0', '1', 'True', 'False'):
             return a if b.text in ('0', 'False') else SV((), f'({a.text}+1)', 'size', ('cat', a.size, 'ONE'))
